@@ -89,6 +89,7 @@ def run(check, prog):
     # ... and reports the same four numbers as the single-sphere theory only if
     # its per-sphere series is not cut in front of a resonant order
     _c02.series_exit(check, prog)
+    _c02.psi_product_start(check, prog)
     # ... and returns numbers at all, whatever ran before (no read of a never-written
     # stack word in the compiled routines)
     _c02.work_arrays_defined(check, prog)
